@@ -230,6 +230,7 @@ func (r *Record) AddAttributes(attrs ...log.KeyValue) {
 		if found {
 			// New attrs overwrite any existing with the same key.
 			r.addDropped(1)
+			a = r.applyAttrLimits(a)
 			if idx < 0 {
 				r.front[-(idx + 1)] = a
 			} else {
